@@ -26,8 +26,8 @@ type c05Op struct {
 }
 
 type c05Case struct {
-	Property string  `json:"property"`
-	Oracle   bool    `json:"oracle"`
+	Property string `json:"property"`
+	Oracle   bool   `json:"oracle"`
 	Ra, Rb   string
 	Wa, Wb   int64
 	Pa, Pb   string
